@@ -49,6 +49,7 @@ def pubJ (p : Prog) (req : Json) : List (String × Json) :=
     match publicBuild p inputs true with
     | .error (.build e) => [("pub", (errJ e))]
     | .error .missingInput => [("pub", Json.mkObj [("ok", false), ("err", "Key"), ("why", "missing-input")])]
+    | .error .validation => [("pub", Json.mkObj [("ok", false), ("err", "Validation"), ("why", "checker")])]
     | .ok (_, tr, kept) =>
       [("pub", Json.mkObj [("ok", true), ("inputs", toJson kept),
                            ("struct_ok", structOk (p.withMainArgs none) tr [])])]
